@@ -1,5 +1,5 @@
 (* C07 - stop discipline: That's all, Rounds, Stand, stop-at-rounds; bells left at hand. *)
-From Wh Require Import Prelude Permute PN Gens Complib Tower Rhythm PyStr Sys GensP BotP.
+From Wh Require Import Prelude Permute PN Gens Complib Tower Rhythm PyStr Sys GensP BotP SettingsP.
 From Coq Require Import NArith ZArith QArith.
 Close Scope Q_scope.
 
@@ -41,3 +41,13 @@ From Coq Require Import ZArith QArith.
 (* stop-at-rounds is -s or -H on the command line, and always on in server mode *)
 Theorem C07_stop_at_rounds_flag : forall c cfg, console_cfg c = Ok cfg -> bc_sar cfg = (cl_sar c || cl_handbell c).
 Proof. exact stop_at_rounds_flag. Qed.
+
+(* what a settings message - any keys, any values, any number of them - can NOT do: the pending Stand next, the
+   That's-all countdown, the pending start, the row in progress and the generators are exactly as they were *)
+Theorem C07_settings_never_cancel_a_call : forall nested w kvs w' o,
+  handle nested w (MSetting kvs) = (w', o) -> same_control w w'.
+Proof. exact setting_message_keeps_control. Qed.
+Theorem C07_people_never_cancel_a_call : forall nested w m w' o,
+  match m with MUserEntered _ _ | MUserList _ | MUserLeft _ | MAssign _ _ => True | _ => False end ->
+  handle nested w m = (w', o) -> same_control w w'.
+Proof. exact people_messages_keep_control. Qed.
